@@ -22,8 +22,9 @@
    state, because Server.init re-creates srv.shutdown and srv.conns and the
    WaitGroup is local to the serve call (epoch_over, restart, reachable_r,
    run_lives, accepts_lives at the end of this file).  Not modelled: a start while
-   the previous serve call is still draining, Hijack, MaxTCPQueries,
-   handler-initiated Close. *)
+   the previous serve call is still draining, MaxTCPQueries, handler-initiated
+   Close.  Hijack: a handler that hijacked its TCP connection leaves through
+   HExitHj (no Close by the server, deregistration only). *)
 From Dns Require Export Base.Bytes.
 From Coq Require Export Arith.
 Open Scope nat_scope.
@@ -88,7 +89,7 @@ Inductive label :=
 | SSetDlL | SPacket (p : nat) | SReadErr | SWaitDone | SReturn (v : retv)
 (* workers *)
 | WCheck (c : nat) | WSetDl (c : nat) | Req (c : nat) | ReadErr (c : nat)
-| HEnter (c : nat) | Reply (c : nat) | HExit (c : nat) | WClose (c : nat) | WFinish (c : nat)
+| HEnter (c : nat) | Reply (c : nat) | HExit (c : nat) | HExitHj (c : nat) | WClose (c : nat) | WFinish (c : nat)
 (* Shutdown callers *)
 | SdInvoke (j : nat) | SdAtomic (j : nat) | SdCtx (j : nat) | SdReturn (j : nat) (r : sdres).
 
@@ -280,6 +281,14 @@ Definition step (s : state) (l : label) : option state :=
   | HEnter c => wstep s c CGot (fun _ => true) (set_pc CHandler)
   | Reply c => wstep s c CHandler (fun _ => true) (fun w => w)
   | HExit c => wstep s c CHandler (fun _ => true) (set_pc (match md s with TCP => CCheck | UDP => CFin end))
+  | HExitHj c =>
+    (* TCP: the handler called Hijack() and returns: serveTCPConn leaves its loop,
+       does NOT close the connection (it is the handler's now), only removes it
+       from srv.conns and calls wg.Done() *)
+    match md s with
+    | TCP => wstep s c CHandler (fun _ => true) (set_pc CFin)
+    | UDP => None
+    end
   | WClose c => wstep s c CClosing (fun _ => true) (set_pc CFin)
   | WFinish c =>
     match wstep s c CFin (fun _ => true) (set_pc CDone) with
